@@ -348,6 +348,10 @@ func runOnce(t *testing.T, p *gen.Prog, dir string, st *strategy, o runOpts, onD
 			if pe.isEv {
 				res.events++
 				m.Step(pe.ev)
+				if len(m.Viols) > 0 {
+					res.viols = append(res.viols, m.Viols...)
+					m.Viols = nil
+				}
 			} else if pe.pause != "" {
 				res.pauses++
 			}
